@@ -9,6 +9,7 @@ Strings are hex of their UTF-8 bytes (`-` = empty string). Lists use `,` / `;`, 
   conv <metric>                                  convert one metric, do not append
   add <metric>                                   convert and TryAppend
   route <n> <day|month|year>                     shard / family groups of the current batch
+  routep <n> <day|month|year> <present s,s,…|->  the same through databaseChannel.Write with only these shard channels
   evict <behind> <ahead> <stale|-> | off1 off2 … fresh batch of rows with ts = now+off, evict, write
 
   <metric> = nil | n=<s> ns=<s> ts=<int> tags=<k:v|nil,…> f=<name:type:val|nil,…> cf=<-|min:max:sum:count:v;v;…:b;b;…>
@@ -276,6 +277,17 @@ def step (st : St) (ws : List String) : St × String :=
       let gs := route Hash64.jumpHash C (insertionSort lessShard) (insertionSort lessTs) n rows
       if gs.all (fun g => decide (g.shard < n)) then (st, "groups " ++ showGroups gs) else (st, "bad-jump")
     | _, _ => (st, "bad-op")
+  | ["routep", n, k, pr] =>
+    match n.toNat?, calc? k, (if pr = "-" then some [] else (pr.splitOn ",").mapM String.toNat?) with
+    | some n, some C, some present =>
+      if n = 0 then (st, "bad-op") else
+      let rows := appendAll Generated.C16.appendClearsMark st.stale st.batch
+      let gs := route Hash64.jumpHash C (insertionSort lessShard) (insertionSort lessTs) n rows
+      if gs.all (fun g => decide (g.shard < n)) then
+        let d := deliver (fun s => present.contains s) gs
+        (st, s!"groups {showGroups d.1} err={if d.2 then 1 else 0}")
+      else (st, "bad-jump")
+    | _, _, _ => (st, "bad-op")
   | "evict" :: b :: a :: m :: "|" :: offs =>
     match b.toInt?, a.toInt?, marks? m, Proto.intList? offs with
     | some behind, some ahead, some ms, some offs =>
